@@ -112,6 +112,13 @@ GF == [
   cg  |-> [kind |-> "cond", t |-> "gT", f |-> "gF"],
   fcg |-> [kind |-> "fn", sites |-> << Site("c", "cg", <<"pair", <<"eq", Arg, Cn(0)>>, Arg>>), Site("y", "d1", Val("c")) >>,
            ret |-> Val("y")],
+  \* ... and with TWO addresses below the shared nested address (a constraint can be partial inside the nested sub-map)
+  f2b |-> [kind |-> "fn", sites |-> << Site("a", "d1", Arg), Site("b", "d2", Val("a")) >>, ret |-> Add(Val("a"), Val("b"))],
+  hT  |-> [kind |-> "fn", sites |-> << Site("s", "f2", Arg) >>, ret |-> Val("s")],
+  hF  |-> [kind |-> "fn", sites |-> << Site("s", "f2b", Add(Arg, Cn(1))) >>, ret |-> Val("s")],
+  ch  |-> [kind |-> "cond", t |-> "hT", f |-> "hF"],
+  fch |-> [kind |-> "fn", sites |-> << Site("c", "ch", <<"pair", <<"eq", Arg, Cn(0)>>, Arg>>), Site("y", "d1", Val("c")) >>,
+           ret |-> Val("y")],
   \* cond directly over two distributions
   cdd |-> [kind |-> "cond", t |-> "d0", f |-> "d1"],
   fd  |-> [kind |-> "fn", sites |-> << Site("c", "cdd", <<"pair", <<"eq", Arg, Cn(1)>>, Arg>>), Site("y", "d0", Val("c")) >>,
